@@ -31,7 +31,9 @@ def sibling_case(g):
     numbered sibling before and after the numbering shifts (remove / insert in front)"""
     r = g.r
     ops = [{"op": "bp.new", "id": "b0"}]
-    fns = [r.choice(["ramp", "sine", "const", "lin2", "poly4", "x9y"]) for _ in range(r.randint(3, 5))]
+    # 3-5 siblings, or more than nine (two-digit numbers: a10, a11, ...)
+    nsib = r.randint(3, 5) if r.random() < 0.65 else r.randint(10, 13)
+    fns = [r.choice(["ramp", "sine", "const", "lin2", "poly4", "x9y"]) for _ in range(nsib)]
     for f in fns:
         ops.append({"op": "bp.insert", "id": "b0", "pos": -1, "fn": fnspec(f), "args": [enc(g.fnum()) for _ in PARAMS[f]],
                     "dur": enc(r.choice([1, 0.5, 2])), "name": enc("a")})
@@ -60,6 +62,8 @@ def sibling_case(g):
             fl = [f] + [x for _, x in cur]
             cur = list(zip(canonical_names(["a"] * len(fl)), fl))
         ops.append({"op": "bp.desc", "id": "b0"})
+    if nsib >= 10:
+        ops += [{"op": "bp.copy", "id": "b0", "to": "b0c"}, {"op": "bp.desc", "id": "b0c"}]
     return ops
 
 
